@@ -26,6 +26,8 @@ type PFile struct {
 	Content []byte
 	Marker  string
 	Link    string // "": a regular file; "rel" / "abs": a symbolic link (relative / absolute target) to a file holding the content, next to it
+	HasTwin bool   // another entry of the directory is a link to this one (Step leaves both alone)
+	TwinOf  string // not empty: this entry is a hard link to (or a symbolic link to) the named file of the same directory
 }
 
 // specNamed reports whether the cache must consider this entry: a .json/.yaml
@@ -147,7 +149,9 @@ func genPop(r *rand.Rand, root string, opt ...PopOpt) *Pop {
 	p.DevPool = []string{"dev0", "dev1", "dev2"}
 	nphys := 1 + r.Intn(3)
 	for i := 0; i < nphys; i++ {
-		p.Phys = append(p.Phys, filepath.Join(root, fmt.Sprintf("d%d", i)))
+		// (a directory name is a name: characters that mean something to a pattern matcher,
+		// a shell or a URL parser do not mean anything here)
+		p.Phys = append(p.Phys, filepath.Join(root, fmt.Sprintf("d%d", i)+pickStr(r, "", "", "", "", "", "[1]", "\\x", "[", "*?", " sp", "{a}", "%41")))
 		p.Exists = append(p.Exists, true)
 	}
 	if chance(r, 30) { // a missing directory
@@ -193,6 +197,22 @@ func genPop(r *rand.Rand, root string, opt ...PopOpt) *Pop {
 				p.Files = append(p.Files, p.newInvalidFile(r, i, name))
 			} else {
 				p.Files = append(p.Files, p.newValidFile(r, i, name))
+			}
+		}
+		if chance(r, 10) {
+			// the same file under a second Spec name: a hard link or a symbolic link next to
+			// it. Two entries, two Spec files (that they define the same devices makes it a conflict)
+			for _, f := range p.Files {
+				if f.Phys == i && f.Kind == "valid" && f.specNamed() && f.Link == "" {
+					name := "twin-of-" + f.Name
+					if p.find(i, name) < 0 {
+						nf := *f
+						f.HasTwin = true
+						nf.Name, nf.TwinOf = name, pickStr(r, f.Name, "sym:"+f.Name)
+						p.Files = append(p.Files, &nf)
+					}
+					break
+				}
 			}
 		}
 		for k := 0; k < r.Intn(3); k++ {
@@ -266,6 +286,14 @@ func (p *Pop) writeFile(f *PFile) {
 		must(os.WriteFile(path, f.Content, 0o000))
 		must(os.Chmod(path, 0o000))
 	default:
+		if f.TwinOf != "" {
+			if strings.HasPrefix(f.TwinOf, "sym:") {
+				must(os.Symlink(strings.TrimPrefix(f.TwinOf, "sym:"), path))
+			} else {
+				must(os.Link(filepath.Join(filepath.Dir(path), f.TwinOf), path))
+			}
+			return
+		}
 		if f.Link != "" && f.specNamed() {
 			data := "." + filepath.Base(path) + ".linked-data"
 			must(os.WriteFile(filepath.Join(filepath.Dir(path), data), f.Content, 0o644))
@@ -327,6 +355,9 @@ func (p *Pop) Step(r *rand.Rand) string {
 				continue
 			}
 			i := r.Intn(len(p.Files))
+			if p.Files[i].HasTwin || p.Files[i].TwinOf != "" {
+				continue // (linked pairs stay as they are)
+			}
 			old := p.Files[i]
 			if !old.specNamed() {
 				continue
@@ -340,6 +371,9 @@ func (p *Pop) Step(r *rand.Rand) string {
 				continue
 			}
 			i := r.Intn(len(p.Files))
+			if p.Files[i].HasTwin || p.Files[i].TwinOf != "" {
+				continue // (linked pairs stay as they are)
+			}
 			f := p.Files[i]
 			if strings.Contains(f.Name, "/") {
 				continue
@@ -352,6 +386,9 @@ func (p *Pop) Step(r *rand.Rand) string {
 				continue
 			}
 			i := r.Intn(len(p.Files))
+			if p.Files[i].HasTwin || p.Files[i].TwinOf != "" {
+				continue // (linked pairs stay as they are)
+			}
 			old := p.Files[i]
 			if !old.specNamed() {
 				continue
@@ -365,6 +402,9 @@ func (p *Pop) Step(r *rand.Rand) string {
 				continue
 			}
 			i := r.Intn(len(p.Files))
+			if p.Files[i].HasTwin || p.Files[i].TwinOf != "" {
+				continue // (linked pairs stay as they are)
+			}
 			f := p.Files[i]
 			if strings.Contains(f.Name, "/") {
 				continue
@@ -432,6 +472,19 @@ func (p *Pop) Step(r *rand.Rand) string {
 		}
 	}
 	return "noop"
+}
+
+// DropTwins removes the linked second names (for checks that rewrite files in place).
+func (p *Pop) DropTwins() *Pop {
+	var keep []*PFile
+	for _, f := range p.Files {
+		if f.TwinOf == "" {
+			f.HasTwin = false
+			keep = append(keep, f)
+		}
+	}
+	p.Files = keep
+	return p
 }
 
 // Resolve is M-RESOLVE.
